@@ -209,3 +209,40 @@ pub fn bad_counter_index(a: &[i32; 7], n: usize) -> i32 {
     }
     acc
 }
+pub fn ok_wide_counter(xs: &[u8]) -> i64 {
+    let mut depth = 0_i64;
+    for x in xs {
+        if *x == b'{' {
+            depth += 1;
+        } else if *x == b'}' {
+            depth -= 1;
+        }
+    }
+    depth
+}
+pub fn bad_narrow_counter(xs: &[u8]) -> i32 {
+    let mut depth = 0_i32;
+    for x in xs {
+        if *x == b'{' {
+            depth += 1;
+        }
+    }
+    depth
+}
+pub fn bad_wide_counter_scaled(xs: &[i64]) -> i64 {
+    let mut depth = 0_i64;
+    for x in xs {
+        depth += 1;
+        depth = depth * *x;
+    }
+    depth
+}
+pub fn bad_unsigned_counter(xs: &[u8]) -> u64 {
+    let mut depth = 0_u64;
+    for x in xs {
+        if *x == b'}' {
+            depth -= 1;
+        }
+    }
+    depth
+}
